@@ -74,7 +74,7 @@ func DefaultAlphabet() StoreAlphabet {
 	return StoreAlphabet{
 		Nodes:    []string{"n1", "n2", "n3", "n4", "", "x:y"},
 		Accounts: []string{"A", "B", ""},
-		Amounts:  []string{"0", "1", "-1", "2", "7", "18446744073709551616", "-18446744073709551616", "1000000000000000000000000000000", "-1000000000000000000000000000000"},
+		Amounts:  []string{"0", "1", "-1", "2", "7", "18446744073709551616", "-18446744073709551616", "1000000000000000000000000000000", "-1000000000000000000000000000000", "4611686018427387904", "-4611686018427387904", "9223372036854775807", "1000000000000000000"},
 		Kinds:    []string{"geth", "parity", ""},
 		Ages:     []int{0, 60, 110, 130, 180, 3600, -1},
 	}
